@@ -39,7 +39,7 @@ def cases(draw, ctx):
     ncond = draw(st.sampled_from([1, 1, 2]))
     nmutex = draw(st.integers(1, ncond))
     for m in range(nmutex):
-        lines.append("mutex %d kind=%s" % (m, draw(st.sampled_from(["dyn", "static"]))))
+        lines.append("mutex %d kind=%s" % (m, draw(st.sampled_from(["dyn", "static", "rec", "staticrec"]))))
     for c in range(ncond):
         lines.append("cond %d kind=%s" % (c, draw(st.sampled_from(["dyn", "static"]))))
     cm = [c % nmutex for c in range(ncond)]
@@ -107,7 +107,7 @@ def judge(text, res, ctx):
 def classify(text, res, ctx):
     out = ["timed_mix"] if "note c05-timed" in text else []
     for k in ("cond_timedout", "signal_with_2_waiters", "signal_racing_enqueue", "signal_no_waiter",
-              "broadcasts", "tasklet_rejected"):
+              "broadcasts", "tasklet_rejected", "cond_recursive_owner_checked"):
         if stat(res, k):
             out.append(k)
     if "ctimedwait" in text:
